@@ -138,6 +138,9 @@ struct carquet_column_reader {
     bool page_loaded;           /* Is a page currently loaded? */
     int32_t page_num_values;    /* Total values in current page */
     int32_t page_values_read;   /* Values already read from current page */
+    int32_t page_dense_read;    /* Non-null values already read from current page
+                                 * (decoded_values holds only non-null values) */
+    int64_t last_values_copied; /* Non-null values copied out by the last page read */
     int32_t page_header_size;   /* Size of current page header */
     int32_t page_compressed_size; /* Size of current page compressed data */
     uint8_t* decoded_values;    /* Buffer for decoded values from current page */
